@@ -14,7 +14,9 @@
 Require Import List Arith Bool Reals Permutation.
 From Dasp Require Import Base.Res Base.ListX Ring.Fixed Ring.FixedSpec
   Graph.Nodes Graph.NodesSpec Graph.NodesProofs Graph.NodesDelayProofs Graph.NodesSignalProofs
-  Graph.NodesGraphProofs Graph.NodesSumOrder Graph.NodesRun Graph.NodesRunProofs Graph.NodesExamples.
+  Graph.NodesGraphProofs Graph.NodesSumOrder Graph.NodesRun Graph.NodesRunProofs Graph.NodesExamples
+  Graph.Dfs Graph.Process Graph.ProcessSpec Graph.ProcessProofs Graph.NodesCompose Graph.NodesComposeProofs
+  Graph.NodesComposeInst Graph.NodesComposeExamples.
 Import ListNotations.
 Local Open Scope nat_scope.
 
@@ -205,3 +207,115 @@ Theorem c16_graph_star_lens : forall (Smp : Type),
   (forall (g : @star Smp) n m b, m <> n -> star_bufs (star_set g n b) m = star_bufs g m).
 Proof. intros Smp. exact (conj (@star_get_set_eq Smp) (@star_get_set_neq Smp)). Qed.
 Print Assumptions c16_graph_star_lens.
+
+(* ---- GraphNode composed with the C09 traversal model (Graph/NodesCompose.v) ----
+   [gn_process nprocess ids on (p, g)] is [graph_process] above with its three abstract parameters
+   instantiated: the inner graph [g] is a C09 multigraph of (node, buffers) weights, the buffer lens
+   is node_weight(n).buffers, and the inner processing is [process_r]: the loops of
+   dasp_graph::process (DfsPostOrder over the reversed multigraph, one input per incoming edge,
+   newest first) with the inner node type's own Node::process [nprocess], which may panic.
+   What is asked of the inner node type: an invariant [nok] under which Node::process, given
+   well-formed inputs and buffers, returns, keeps the invariant and leaves well-formed buffers. *)
+
+(* the loops with panicking nodes ARE the C09 model [process] (so every theorem of props/C09.v
+   applies) as long as every node satisfies an invariant under which the node function returns *)
+Theorem c16_process_with_panics_is_c09 : forall (W B : Type) (bufs : W -> B) (nstep : W -> list B -> res W)
+  (ok : W -> Prop) (okb : B -> Prop),
+  (forall w, ok w -> okb (bufs w)) ->
+  (forall w ins, ok w -> Forall okb ins -> exists w', nstep w ins = Ok w' /\ ok w') ->
+  forall (p : processor) (g : graph W) (out : nat), all_ok ok g ->
+  process_r bufs nstep p g out = process bufs (tot nstep) p g out.
+Proof. exact @process_r_total. Qed.
+Print Assumptions c16_process_with_panics_is_c09.
+
+(* GraphNode over ANY inner multigraph (cycles, self-loops, parallel edges, vacancies, nodes that
+   do not feed the output node, repeated input nodes): the call returns; it is the copy-in (closed
+   form [copy_in_spec]), the C09 model from the output node, the copy-out; graph shape and
+   invariants are kept, so it can be called again, any number of times *)
+Theorem c16_graph_node_is_c09 : forall (Smp N : Type) (LEN : nat)
+  (nprocess : N -> list (list (list Smp)) -> list (list Smp) -> res (N * list (list Smp))) (nok : N -> Prop),
+  (forall nd ins out, nok nd -> Forall (wfbs LEN) ins -> wfbs LEN out ->
+     exists nd' out', nprocess nd ins out = Ok (nd', out') /\ nok nd' /\ wfbs LEN out') ->
+  forall (ids : list nat) (on : nat) (p : processor) (g : graph (N * list (list Smp)))
+         (inputs : list (list (list Smp))) (output : list (list Smp)),
+  wf g -> live g on = true -> all_ok (wok LEN nok) g -> (forall n, In n ids -> live g n = true) ->
+  Forall (wfbs LEN) inputs -> wfbs LEN output ->
+  let g1 := copy_in_spec g inputs ids in
+  exists p' g2 log wo,
+    process ibufs (tot (istep nprocess)) p g1 on = Ok (p', g2, log) /\ weight g2 on = Some wo /\
+    gn_process nprocess ids on (p, g) inputs output = Ok ((p', g2), zip_copy_spec output (snd wo)) /\
+    same_shape g g1 /\ same_shape g g2 /\ all_ok (wok LEN nok) g2 /\ wfbs LEN (zip_copy_spec output (snd wo)).
+Proof. exact @gn_process_c09. Qed.
+Print Assumptions c16_graph_node_is_c09.
+
+(* acyclic inner upstream subgraph of any shape: the inner graph ends as the functional evaluation
+   [eval] (props/C09.v: c09_functional_stateful) of the graph after copy-in, inner nodes that do not
+   feed the output node are untouched, the node's output is the evaluated output node's buffers
+   zip-copied onto its own buffers *)
+Theorem c16_graph_node_functional : forall (Smp N : Type) (LEN : nat)
+  (nprocess : N -> list (list (list Smp)) -> list (list Smp) -> res (N * list (list Smp))) (nok : N -> Prop),
+  (forall nd ins out, nok nd -> Forall (wfbs LEN) ins -> wfbs LEN out ->
+     exists nd' out', nprocess nd ins out = Ok (nd', out') /\ nok nd' /\ wfbs LEN out') ->
+  forall (ids : list nat) (on : nat) (p : processor) (g : graph (N * list (list Smp)))
+         (inputs : list (list (list Smp))) (output : list (list Smp)),
+  wf g -> live g on = true -> all_ok (wok LEN nok) g -> (forall n, In n ids -> live g n = true) ->
+  Forall (wfbs LEN) inputs -> wfbs LEN output -> acyclic_upstream g on ->
+  let g1 := copy_in_spec g inputs ids in
+  exists p' g2 wo,
+    gn_process nprocess ids on (p, g) inputs output = Ok ((p', g2), zip_copy_spec output (snd wo)) /\
+    eval ibufs (tot (istep nprocess)) g1 (length (slots g1)) on = Some wo /\
+    (forall v, upstream g1 on v -> weight g2 v = eval ibufs (tot (istep nprocess)) g1 (length (slots g1)) v) /\
+    (forall v, ~ upstream g1 on v -> weight g2 v = weight g1 v) /\
+    same_shape g g2 /\ all_ok (wok LEN nok) g2 /\ wfbs LEN (zip_copy_spec output (snd wo)).
+Proof. exact @gn_process_functional. Qed.
+Print Assumptions c16_graph_node_functional.
+
+(* the node type "plain node or graph node over plain nodes" again satisfies what is asked of an
+   inner node type: graph nodes nest to any depth *)
+Theorem c16_graph_node_nests : forall (Smp N : Type) (LEN : nat)
+  (nprocess : N -> list (list (list Smp)) -> list (list Smp) -> res (N * list (list Smp))) (nok : N -> Prop),
+  (forall nd ins out, nok nd -> Forall (wfbs LEN) ins -> wfbs LEN out ->
+     exists nd' out', nprocess nd ins out = Ok (nd', out') /\ nok nd' /\ wfbs LEN out') ->
+  forall (o : @onode Smp N) ins out, onok LEN nok o -> Forall (wfbs LEN) ins -> wfbs LEN out ->
+  exists o' out', oprocess nprocess o ins out = Ok (o', out') /\ onok LEN nok o' /\ wfbs LEN out'.
+Proof. exact @oprocess_ok. Qed.
+Print Assumptions c16_graph_node_nests.
+
+(* wrapped in an OUTER graph processed by the C09 model: the run returns whatever the inner shapes,
+   it is the C09 model run (all of props/C09.v applies), and every graph node t upstream of the outer
+   output node with an acyclic inner upstream subgraph ends with inner graph = functional evaluation
+   of its inner graph after copy-in of INS, output = the evaluated inner output node's buffers
+   zip-copied onto its own, INS = the FINAL buffers of the outer nodes feeding t (one per edge,
+   newest edge first): the nested graph node behaves exactly like the graph it wraps *)
+Theorem c16_graph_node_composed : forall (Smp N : Type) (LEN : nat)
+  (nprocess : N -> list (list (list Smp)) -> list (list Smp) -> res (N * list (list Smp))) (nok : N -> Prop),
+  (forall nd ins out, nok nd -> Forall (wfbs LEN) ins -> wfbs LEN out ->
+     exists nd' out', nprocess nd ins out = Ok (nd', out') /\ nok nd' /\ wfbs LEN out') ->
+  forall (p : processor) (G : graph (@onode Smp N * list (list Smp))) (out : nat),
+  wf G -> live G out = true -> acyclic_upstream G out -> all_ok (wok LEN (onok LEN nok)) G ->
+  exists p' G' log,
+    process_r ibufs (istep (oprocess nprocess)) p G out = Ok (p', G', log) /\
+    process ibufs (tot (istep (oprocess nprocess))) p G out = Ok (p', G', log) /\
+    all_ok (wok LEN (onok LEN nok)) G' /\
+    forall t pi gi ids on ob, upstream G out t -> weight G t = Some (OGraph pi gi ids on, ob) ->
+      acyclic_upstream gi on ->
+      let INS := flat_map (fun u => match weight G' u with Some w' => [ibufs w'] | None => [] end) (ins G t) in
+      let g1 := copy_in_spec gi INS ids in
+      exists pi' gi' wo,
+        weight G' t = Some (OGraph pi' gi' ids on, zip_copy_spec ob (snd wo)) /\
+        eval ibufs (tot (istep nprocess)) g1 (length (slots g1)) on = Some wo /\
+        (forall v, upstream g1 on v -> weight gi' v = eval ibufs (tot (istep nprocess)) g1 (length (slots g1)) v) /\
+        (forall v, ~ upstream g1 on v -> weight gi' v = weight g1 v).
+Proof. exact @outer_graph_node_composed. Qed.
+Print Assumptions c16_graph_node_composed.
+
+(* the built-in nodes the executable model runs (Sum, SumBuffers, Pass, Delay with valid rings, the
+   signal node with frames of its channel count) are such an inner node type, for the code's
+   buffer length 64: so the theorems above are about graphs of these nodes, of graph nodes of
+   these nodes, ... *)
+Theorem c16_builtin_nodes_compose : forall (Smp : Type) (zero : Smp) (add : Smp -> Smp -> Smp)
+  (nd : node Smp) (inp : list (list (list Smp))) (out : list (list Smp)),
+  builtin_ok nd -> Forall (wfbs BLEN) inp -> wfbs BLEN out ->
+  exists nd' out', nprocess zero add nd inp out = Ok (nd', out') /\ builtin_ok nd' /\ wfbs BLEN out'.
+Proof. exact @builtin_process_ok. Qed.
+Print Assumptions c16_builtin_nodes_compose.
